@@ -9,8 +9,16 @@ from vt import common
 from vt.e1 import engine
 
 
+def _explore_one(args):
+    scn, monitor, k, deadline, seed = args
+    t0 = time.time()
+    res = engine.explore(scn, monitor, k, deadline, seed, procs=1)
+    res.wall = time.time() - t0
+    return res
+
+
 def run_e1(prop, tier, seed, technique, plan, monitor, quick_budget, thorough_budget, rule, assumptions, matcher=None,
-           suite="mini", post=None):
+           suite="mini", post=None, parallel_scenarios=False):
     """plan: list of (Scenario, k) explored in order; a wall-clock cap may cut the tail (reported, never hidden)."""
     common.bootstrap(suite)
     engine.install_memo()
@@ -26,16 +34,21 @@ def run_e1(prop, tier, seed, technique, plan, monitor, quick_budget, thorough_bu
     # determinism self-check on the first scenario (and on every violating execution below)
     engine.determinism_check(plan[0][0])
     remaining_weight = sum(w for _, _, w in _weighted(plan))
+    precomputed = {}
+    if parallel_scenarios:
+        items = list(_weighted(plan))
+        results = common.pmap(_explore_one, [(scn, monitor, k, t_end, seed) for scn, k, _ in items])
+        precomputed = {id(scn): r for (scn, _, _), r in zip(items, results)}
     for scn, k, weight in _weighted(plan):
         now = time.time()
-        if now >= t_end:
+        if now >= t_end and not parallel_scenarios:
             rep.exhaustive = False
             per_scn.append({"scenario": scn.name, "k": k, "skipped": "wall-clock cap reached"})
             continue
         share = max(5.0, (t_end - now) * weight / max(remaining_weight, 1e-9))
         remaining_weight -= weight
         deadline = min(t_end, now + share * 1.5)
-        res = engine.explore(scn, monitor, k, deadline, seed)
+        res = precomputed[id(scn)] if parallel_scenarios else engine.explore(scn, monitor, k, deadline, seed)
         if res.errors:
             raise common.HarnessError("; ".join(res.errors[:3]))
         rep.evaluations += res.executions
